@@ -108,7 +108,10 @@ def jalali_string(y, m, d, sp, hm):
     g = dt.date(*j2g(y, m, d))
     if sp["kind"] == "num":
         sep = sp["sep"]
-        s = sep.join([str(y), ("%02d" % m) if sp["pad"] else str(m), ("%02d" % d) if sp["pad"] else str(d)])
+        parts = [str(y), ("%02d" % m) if sp["pad"] else str(m), ("%02d" % d) if sp["pad"] else str(d)]
+        if sp.get("order") == "dmy" and d > 12:  # day-first only when unambiguous (a-b-yyyy with a <= 12 is read month-first)
+            parts.reverse()
+        s = sep.join(parts)
     else:
         mon = J_MONTHS[m - 1][sp["mname"] % len(J_MONTHS[m - 1])]
         day = str(d)
@@ -213,7 +216,7 @@ def _jsp(h):
     kind = "named" if h % 3 else "num"
     sp = {"kind": kind, "pdigits": (h >> 4) % 2}
     if kind == "num":
-        sp.update(sep="/" if (h >> 6) % 2 else "-", pad=(h >> 7) % 2)
+        sp.update(sep="/-."[(h >> 6) % 3] if (h >> 9) % 2 else "/-"[(h >> 6) % 2], pad=(h >> 7) % 2, order="dmy" if (h >> 9) % 2 else "ymd")
     else:
         sp.update(mname=(h >> 8) % 2, spelled=(h >> 10) % 3, weekday=(h >> 12) % 2, timeform=(h >> 14) % 2)
         if sp["spelled"]:
@@ -254,6 +257,36 @@ def _walk(ctx):
     return it
 
 
+def _boundary_years(ctx):
+    """The first and last two years of each supported range, every month, days 1 / 13 / last, in *every* numeric spelling
+    (order x separator x padding x digit script; a clock time for a third of them): year-dependent defects sit at the range
+    ends (a year that spells a UTC offset, a guard that is off by one), and a hash-rotated spelling visits each
+    (year, spelling) combination there too rarely."""
+    def it(shard, nshards):
+        i = 0
+        for cal, years in (("jalali", (1200, 1201, 1499, 1500)), ("hijri", (1343, 1344, 1499, 1500))):
+            for y in years:
+                for m in range(1, 13):
+                    ml = j_month_length(y, m) if cal == "jalali" else min(h_month_length(y, m), 30)
+                    for d in (1, 13, ml):
+                        if cal == "jalali":
+                            sps = [{"kind": "num", "order": o, "sep": sep, "pad": pad, "pdigits": pd}
+                                   for o in ("ymd", "dmy") for sep in ("/", "-", ".") for pad in (0, 1) for pd in (0, 1)
+                                   if not (o == "dmy" and d <= 12) and not (o == "ymd" and sep == ".")]
+                        else:
+                            sps = [{"order": o, "sep": sep, "pad": pad, "ampm": 0}
+                                   for o in ("ymd", "dmy") for sep in ("/", "-") for pad in (0, 1)
+                                   if not (o == "dmy" and (d <= 12 or sep == "/" or not pad))]
+                        for sp in sps:
+                            i += 1
+                            if i % nshards != shard:
+                                continue
+                            h = derive_seed(ctx.seed, "b", cal, y, m, d, i)
+                            hm = None if h % 3 else [(h >> 24) % 24, (h >> 32) % 60]
+                            yield {"cal": cal, "ymd": [y, m, d], "sp": sp, "hm": hm, "pair": False}
+    return it
+
+
 @st.composite
 def sampled(draw):
     if draw(st.booleans()):
@@ -272,4 +305,5 @@ def sampled(draw):
 
 def stages(ctx):
     return [Stage("calendar_walk", "enum", cases=_walk(ctx), exhaustive=not ctx.quick),
+            Stage("boundary_years", "enum", cases=_boundary_years(ctx), exhaustive=True),
             Stage("sampled", "hyp", strategy=sampled(), examples=ctx.n(1200, 40000))]
